@@ -4,7 +4,7 @@
 open Model
 open Util
 
-let fuel = nat_of_int 30000
+let fuel = nat_of_int (try int_of_string (Sys.getenv "SUP_FUEL") with _ -> 2500)
 
 let parse_caps (s : string) : rspec list =
   if s = "" then [] else
@@ -50,6 +50,7 @@ let parse_event (line : string) : parsed =
   | "EV" :: "ReloadCall" :: [i] -> Ev (EReloadCall (n (i_ i)))
   | "EV" :: "ReloadRet" :: [i] -> Ev (EReloadRet (n (i_ i)))
   | "EV" :: "Poll" :: i :: [b] -> Ev (EPoll (n (i_ i), b = "1"))
+  | "EV" :: "PollBegin" :: [i] -> Ev (EPollBegin (n (i_ i)))
   | "EV" :: "Emit" :: i :: [x] -> Ev (EEmit (n (i_ i), n (i_ x)))
   | "EV" :: "TrigR" :: [i] -> Ev (ETrigR (n (i_ i)))
   | "EV" :: "TrigS" :: [i] -> Ev (ETrigS (n (i_ i)))
@@ -82,6 +83,8 @@ let () =
   let scen = ref 0 and mism = ref 0 and events = ref 0 and incon = ref 0 and specials = ref 0 in
   let snaps = ref 0 in
   let fam_counts = Hashtbl.create 8 in
+  let propfail : (string, int) Hashtbl.t = Hashtbl.create 8 in
+  let accepted = ref 0 and kinds = Hashtbl.create 32 in
   let cur_hdr = ref "" and cur_cfg = ref None and cur_evs = ref [] and cur_lines = ref [] and cur_special = ref [] in
   let finish () =
     match !cur_cfg with
@@ -91,14 +94,30 @@ let () =
       let evs = List.rev !cur_evs and lines = List.rev !cur_lines in
       events := !events + List.length evs;
       List.iter (fun sp -> incr specials; incr mism; Printf.printf "MISMATCH special %s :: %s\n" !cur_hdr sp) (List.rev !cur_special);
+      let mon name f = if not (f cfg evs) then begin
+          Hashtbl.replace propfail name (1 + try Hashtbl.find propfail name with Not_found -> 0);
+          Printf.printf "PROPFAIL %s %s\n" name !cur_hdr end in
+      mon "C01.order" c01_order; mon "C01.exactly_once" c01_exactly_once; mon "C01.not_before" c01_not_before;
+      mon "C03.gate" c03_gate; mon "C03.once" c03_once;
+      mon "C04" c04_holdsb; mon "C04.cause" c04_needs_cause; mon "C04.nil" c04_nil;
+      mon "C05.shape" c05_shape; mon "C05.no_dup" c05_no_dup; mon "C06" c06_holdsb;
+      mon "C18.final" c18_holdsb; mon "C18.bounded" c18_bounded;
       let d = int_of_nat (sup_depth cfg fuel evs) in
+      List.iter (fun l -> match String.split_on_char ' ' l with
+          | _ :: k :: _ -> Hashtbl.replace kinds k (1 + try Hashtbl.find kinds k with Not_found -> 0)
+          | _ -> ()) lines;
+      if d >= List.length evs then incr accepted;
       if d < List.length evs then begin
         (* either rejected or out of fuel: distinguish *)
         let (_, ok) = sup_frontier cfg fuel (take d evs) in
         if not ok then incr incon
         else begin
           incr mism;
-          Printf.printf "MISMATCH reject %s :: at=%d event=%s\n" !cur_hdr d (List.nth lines d);
+          let diag = match List.nth evs d with
+            | ESnap o -> let (sts, _) = sup_accept cfg fuel (take d evs) in
+              Printf.sprintf " snapdiag=%d" (int_of_nat (snap_diagnosis cfg sts o))
+            | _ -> "" in
+          Printf.printf "MISMATCH reject %s :: at=%d%s event=%s\n" !cur_hdr d diag (List.nth lines d);
           if Sys.getenv_opt "SUP_DEBUG" <> None then begin
             let (sts, _) = sup_accept cfg fuel (take d evs) in
             Printf.printf "DEBUG frontier=%d\n" (List.length sts);
@@ -150,5 +169,7 @@ let () =
      done
    with End_of_file -> ());
   let fams = Hashtbl.fold (fun k v acc -> Printf.sprintf "%s fam_%s=%d" acc k v) fam_counts "" in
-  Printf.printf "SUMMARY scenarios=%d events=%d mismatches=%d inconclusive=%d specials=%d snaps=%d%s\n"
-    !scen !events !mism !incon !specials !snaps fams
+  let ks = Hashtbl.fold (fun k v acc -> Printf.sprintf "%s ev_%s=%d" acc k v) kinds "" in
+  let pf = Hashtbl.fold (fun k v acc -> Printf.sprintf "%s pf_%s=%d" acc k v) propfail "" in
+  Printf.printf "SUMMARY scenarios=%d accepted=%d events=%d mismatches=%d inconclusive=%d specials=%d snaps=%d%s%s%s\n"
+    !scen !accepted !events !mism !incon !specials !snaps fams ks pf
